@@ -128,6 +128,11 @@ func (r *ComDoc) makeFreeSectors(count int, short bool) []SecID {
 // there are no more sectors.
 func (r *ComDoc) readSAT() error {
 	count := r.SectorSize / 4
+	// every sector of the SAT is listed in the MSAT, so there can't be more of
+	// them than there are MSAT entries
+	if int64(r.Header.SATSectors) > int64(len(r.MSAT)) {
+		return errors.New("sat has more sectors than the msat lists")
+	}
 	sat := make([]SecID, count*int(r.Header.SATSectors))
 	position := 0
 	for _, sector := range r.MSAT {
